@@ -99,7 +99,7 @@ def correspond(ctx, C):
             ties.append((c, {"what": "model and implementation disagree (tie broken)", "go": p["valid"], "impl": m["impl"], "impl_panic": m.get("panic")}))
         if p["valid"] != m["spec"]:
             t = triggers(c) & set(known)
-            if t:
+            if t and p["valid"] == m["impl"] and not m.get("panic"):   # a listed finding explains it only if the model of the code reproduces the code's answer
                 for k in t:
                     attributed[k] = attributed.get(k, 0) + 1
             else:
